@@ -14,7 +14,7 @@ CHECKS = {
         "text": "move_dist_t3 (T symbolic up to 2^20) and rate_t3 (T up to 2^32 inside the binary64-exact box) are executed on symbolic "
                 "integers; results are proved equal to the closed forms R(k), S(T) of the third-order recurrence (proved to be the "
                 "recurrence by induction lemmas with unbounded T), including the three-level clear rule and the zero-jerk coincidence "
-                "with move_dist_lt; mp rounding (/6) is covered by tracked error bounds and a nondeterministic round().",
+                "with move_dist_lt; mp rounding (/6) is covered by tracked error bounds; round()/floor() of a value that carries an error bound return any integer the real computation could return, and a counterexample that depends on such a choice is believed only when one of the solver's candidate inputs replays on the real code.",
         "note": "mp/binary64 operations modelled exactly with side-conditions (exactness or error bound) proved per path; T<=2^20 for "
                 "move_dist_t3; rate_t3 under |jerk|T^2<2^40, |accel|T<2^40 (superset of the firmware-valid domain by a paper argument)",
         "technique": "symbolic execution of the Python source on z3 integer terms + SMT (non-linear integer arithmetic) obligations per path, induction lemmas, counterexample replay",
@@ -87,7 +87,7 @@ CHECKS = {
                 "result equals max_dist_from_n_points(pts) < tol with ffgeom executed symbolically (sqrt as a fresh root). L2: supersample "
                 "is executed with the predicate replaced by a memoised nondeterministic stub on lists up to the bound, exploring every "
                 "answer sequence: in-order subsequence of the same objects, first/last kept, every deleted run is the interior of a slice "
-                "judged in tolerance, short lists / non-positive tolerances untouched. L1+L2 give the property. An end-to-end case runs supersample with the real predicate on 3 (thorough 4) symbolic vertices and proves every deleted vertex within tolerance of the segment between its surviving neighbours, independently of how the function is organised.",
+                "judged in tolerance, short lists / non-positive tolerances untouched. L1+L2 give the property. An end-to-end case runs supersample with the real predicate on 3 (thorough 4) symbolic vertices and proves every deleted vertex within tolerance of the segment between its surviving neighbours, independently of how the function is organised; a further end-to-end case runs it on 4 (thorough 5) symbolic vertices with the predicate replaced by its contract L1 (assume-guarantee) and replays counterexamples with the real predicate.",
         "note": "exact-real model of binary64; n <= 4 (quick) / 5 (thorough) points for L1, lists <= 6 / 9 for L2; the composition of L1 and "
                 "L2 is a paper argument (the stub's contract is L1)",
         "technique": "symbolic execution of the Python source on z3 real terms + SMT (QF_NRA) obligations per path; nondeterministic stub for the structural lemma; counterexample replay",
@@ -98,7 +98,7 @@ CHECKS = {
                 "identities) equal to the blossom restriction of the original pieces to the dyadic intervals of an independently "
                 "maintained model, outer handles untouched, every final piece judged flat. F: the real predicate on 4 symbolic points "
                 "returns True exactly when both inner control points are within the flatness of the chord (QF_NRA). T(i): second "
-                "differences of the halves are D1/4, (D1+D2)/8, D2/4 (so they shrink by 4 per level). A second-call case subdivides the same geometry again with another flatness (nothing may be remembered between calls).",
+                "differences of the halves are D1/4, (D1+D2)/8, D2/4 (so they shrink by 4 per level). A second-call case subdivides the same geometry again with another flatness (nothing may be remembered between calls). E2C: the real function on 2 (thorough 2-3) symbolic nodes with the predicate replaced by its contract F and at most 1 (thorough 2) subdivisions: every final piece is flat; counterexamples are replayed with the real predicate.",
         "note": "exact-real model; <= 3 nodes, K = 4 (quick) / 7 (thorough); pieces are processed independently and the depth bound "
                 "log4(max|D|/(flat/2))+1 needs T(ii) (small second differences imply flat), left as a paper argument because z3 answered unknown",
         "technique": "symbolic execution of the Python source on z3 real terms + SMT (QF_LRA/QF_NRA) obligations per path; nondeterministic stub for the structural lemma; counterexample replay",
@@ -140,7 +140,7 @@ CHECKS = {
                 "extent = bounding box, a leaf keeps all boxes, a split node hands every box to >= 1 strictly shorter child list "
                 "(termination); (B) a query visits exactly the children whose arbitrary symbolic extent overlaps the query and reports "
                 "exactly the overlapping leaf boxes. A+B give trees of any size by induction on the height. A failed lemma is never "
-                "reported as such: its model is lifted (far-away boxes, all list orders, probing queries) to an end-to-end brute-force "
+                "reported as such: its model is lifted (far-away boxes, all list orders, probing queries; then by the solver with the model's boxes concrete and one or two further symbolic boxes) to an end-to-end brute-force "
                 "mismatch on the real code first. End-to-end cases are also run after other indexes were built and queried in the same interpreter.",
         "note": "exact-real model of the mean-centre arithmetic; min/max as If-terms; the induction composing lemmas A and B is a paper "
                 "argument; node fan-in of the step lemmas bounded by 3/4 boxes",
@@ -163,7 +163,7 @@ CHECKS = {
                 "big-endian byte layout, untouched other slots, trimmed nickname and the motor-state/mode clauses are proved for all "
                 "values and all prior board states at once (one inductive step per operation). motors_enable is also run after an earlier request on the same object followed by an arbitrary change of the board state (power cycle), and (thorough) after two earlier requests.",
         "note": "the board model (class Board in checks/c16.py, transcribed from the docstrings/EBB reference) is the trusted base; "
-                "int.to_bytes/from_bytes stubbed as div/mod terms and differentially tested against CPython each run; ASCII nicknames <= 4 chars",
+                "int.to_bytes/from_bytes stubbed as div/mod terms and differentially tested against CPython each run; nicknames of <= 4 printable ASCII characters not containing the reserved text 'Err:'",
         "technique": "symbolic execution of the Python source against a symbolic-state device model (z3 arrays, integer terms, token strings) + SMT obligations per path, counterexample replay",
     },
     "C17": {
